@@ -972,7 +972,9 @@ class Evaluator:
                     yield from rec(i + 1, s2, acc + [v])
             for s, args in rec(0, s0, []):
                 if method in TRANSPARENT_METHODS and not args:
-                    yield s, recv
+                    th = getattr(self, "transparent_hook", None)
+                    r = th(callee, method, recv, s) if th else None
+                    yield s, (r if r is not None else recv)
                     continue
                 if method == "cmp" and len(args) == 1:
                     yield s, ("ord", recv, args[0])
